@@ -1,4 +1,4 @@
 SPECIFICATION Spec
-CONSTANTS MaxPacks = 1  AtomicWrite = FALSE  RefPerPack = FALSE
+CONSTANTS MaxPacks = 2  AtomicWrite = TRUE  RefPerPack = TRUE
 INVARIANTS CrashAtomic ClockNeverTorn
 CHECK_DEADLOCK FALSE
